@@ -2068,3 +2068,60 @@ pub mod generated_api {
 	}
 }
 pub fn generated_subscription_names() -> Value { generated_api::run() }
+
+// ------------------------------------------------------------------------------------------
+/// C03 / C12 (schedules of the front-end futures): batches and single calls issued concurrently from several threads on one
+/// client — every batch entry and every call completes with the answer to ITS OWN params.
+pub fn client_concurrent_batches_and_calls() -> Value {
+	let rt = tokio::runtime::Builder::new_multi_thread().worker_threads(8).enable_all().build().unwrap();
+	rt.block_on(async {
+		let c = std::sync::Arc::new(mock::echo_client(ClientBuilder::default().max_concurrent_requests(4096).request_timeout(std::time::Duration::from_secs(10))));
+		let mut handles = Vec::new();
+		for t in 0..6u64 {
+			let c = c.clone();
+			handles.push(tokio::spawn(async move {
+				for round in 0..12u64 {
+					if t % 3 != 2 {
+						let mut b = BatchRequestBuilder::new();
+						let n = 600u64;
+						for k in 0..n {
+							b.insert("m", rpc_params![t * 1_000_000 + round * 1000 + k]).unwrap();
+						}
+						match c.batch_request::<String>(b).await {
+							Ok(br) => {
+								let got: Vec<Result<String, String>> = br.into_iter().map(|e| e.map_err(|e| e.message().to_string())).collect();
+								for (k, e) in got.iter().enumerate() {
+									let want = format!("echo-{}", t * 1_000_000 + round * 1000 + k as u64);
+									if e.as_ref().ok() != Some(&want) {
+										return Some(format!("task {t} round {round}: batch entry {k} holds {:?}, expected {want:?}", e));
+									}
+								}
+								if got.len() != n as usize { return Some(format!("task {t} round {round}: {} entries for a batch of {n}", got.len())); }
+							}
+							Err(e) => return Some(format!("task {t} round {round}: the batch call failed: {e}")),
+						}
+					} else {
+						for k in 0..50u64 {
+							let p = t * 1_000_000 + round * 1000 + k;
+							match c.request::<String, _>("m", rpc_params![p]).await {
+								Ok(v) if v == format!("echo-{p}") => {}
+								other => return Some(format!("task {t} round {round}: call with param {p} completed with {:?}", other.map_err(|e| e.to_string()))),
+							}
+						}
+					}
+				}
+				None
+			}));
+		}
+		for h in handles {
+			match tokio::time::timeout(std::time::Duration::from_secs(60), h).await {
+				Ok(Ok(None)) => {}
+				Ok(Ok(Some(why))) => return json!({"probe":"client_concurrent_batches_and_calls","disagrees":true,
+					"input":"one client, 8 worker threads: 4 tasks x 12 batches of 600 entries and 2 tasks x 600 single calls, all answered correctly by an echo peer",
+					"observed": why, "expected":"every batch entry and every call completes with the echo of its own params"}),
+				other => return json!({"probe":"client_concurrent_batches_and_calls","disagrees":true,"input":"concurrent batches and calls","observed":format!("{:?}", other.map(|r| r.map(|_| ()))),"expected":"all tasks finish"}),
+			}
+		}
+		json!({"probe":"client_concurrent_batches_and_calls","disagrees":false,"histories_tried":1,"bound":"6 tasks on 8 threads: 48 batches of 600 entries, 1200 single calls, one run"})
+	})
+}
